@@ -1,4 +1,4 @@
-import PhononModel.Model.KernelFootprint
+import PhononModel.Model.KernelReads
 import Mathlib.Tactic.Ring
 import Mathlib.Tactic.Linarith
 import Mathlib.Data.List.Perm.Basic
@@ -77,5 +77,27 @@ theorem iterBody_comm {α : Type} (W : Nat → List Nat) (f : Nat → Nat → (N
       have : y ∉ W i := fun h => hd y h hy
       simp [iterBody, this]
     · simp [hi, hj]
+
+
+/-! ### read footprints -/
+
+theorem allLt_sound {n b : Nat} {t : Nat → Nat} (h : allLt n t b = true) : ∀ i, i < n → t i < b := by
+  simpa [allLt, List.all_eq_true] using h
+
+theorem fixedBefore_mono (gmt : Nat → Nat) {m n : Nat} (h : m ≤ n) : fixedBefore gmt m ≤ fixedBefore gmt n := by
+  unfold fixedBefore
+  exact ((List.range_sublist.mpr h).filter _).length_le
+
+theorem fixedBefore_succ_of_fixed (gmt : Nat → Nat) {f : Nat} (h : gmt f = f) :
+    fixedBefore gmt (f + 1) = fixedBefore gmt f + 1 := by
+  unfold fixedBefore
+  rw [List.range_succ, List.filter_append]
+  simp [h]
+
+theorem fixedBefore_lt_of_fixed (gmt : Nat → Nat) {f n : Nat} (hf : f < n) (h : gmt f = f) :
+    fixedBefore gmt f < fixedBefore gmt n := by
+  have := fixedBefore_mono gmt (show f + 1 ≤ n from hf)
+  rw [fixedBefore_succ_of_fixed gmt h] at this
+  omega
 
 end PhononModel.Footprint
